@@ -235,6 +235,21 @@ func execChain(c cfg, ops []string) string {
 				}
 			}
 			out = append(out, fmt.Sprintf("d=%s;m=%d", r.absEntries(rows, false), mid))
+		case 'R':
+			// graceful restart: flush, drop the chain object, load everything back from the database
+			if err := r.in.chain.FlushUtxoCache(blockchain.FlushRequired); err != nil {
+				out = append(out, "err")
+				continue
+			}
+			ch, err := blockchain.New(&blockchain.Config{
+				DB: r.in.db, ChainParams: r.b.params, TimeSource: blockchain.NewMedianTime(), UtxoCacheMaxSize: c.cache,
+			})
+			if err != nil {
+				out = append(out, "err")
+				continue
+			}
+			r.in.chain = ch
+			out = append(out, "ok")
 		case 'O':
 			out = append(out, r.observe())
 		case 'Q':
